@@ -59,7 +59,7 @@ def beh_from_alias(out):
     return json.loads(vlib.tla_unescape(ms[-1]))
 
 
-def run_models(tier, workers_each):
+def run_models(tier, workers_each, sim):
     jobs = {"fixed": ("DapWire_fixed.cfg" if tier == "quick" else "DapWire_fixed_thorough.cfg",
                       dict(coverage=(tier == "thorough")))}
     for k in ASIS:
@@ -73,17 +73,23 @@ def run_models(tier, workers_each):
         w = 2 if DEV else (workers_each if name == "fixed" else 2)
         return name, vlib.tlc("DapWireMC", cfg, workers=w, heap="3g", timeout=1500, name=f"c12-{name}", **kw)
 
-    # registered runs: the big (E) run next to the chain of small as-written runs (<= 8 workers in all)
+    # registered runs: three chains next to each other (4 + 2 + 2 = 8 TLC workers): the big (E) run, the small
+    # as-written runs, and the largest as-written run followed by the G simulation
     if DEV:
         for name in jobs:
             res[name] = one(name)[1]
+        res["G"] = simulate_behaviours(*sim)
         return res
-    with cf.ThreadPoolExecutor(max_workers=2) as ex:
-        big = ex.submit(one, "fixed")
-        small = ex.submit(lambda: [one(n) for n in jobs if n != "fixed"])
-        res["fixed"] = big.result()[1]
+    with cf.ThreadPoolExecutor(max_workers=3) as ex:
+        big = ex.submit(one, "fixed") if "fixed" in jobs else None
+        small = ex.submit(lambda: [one(n) for n in jobs if n not in ("fixed", "asis_e")])
+        third = ex.submit(lambda: (one("asis_e"), simulate_behaviours(*sim)))
+        if big:
+            res["fixed"] = big.result()[1]
         for name, r in small.result():
             res[name] = r
+        (name, r), g = third.result()
+        res[name], res["G"] = r, g
     return res
 
 
@@ -397,13 +403,17 @@ def run(rep, tier, replay):
     else:
         with cf.ThreadPoolExecutor(max_workers=2) as ex:
             fb = ex.submit(vlib.cargo_build, "c12")
-            fm = ex.submit(run_models, tier, 5 if tier == "quick" else 6)
+            nsim, ncover = (400, 32) if tier == "quick" else (4000, 260)
+            if FAST:
+                nsim, ncover = 40, 4
+            fm = ex.submit(run_models, tier, 4 if tier == "quick" else 6, (nsim, 400, vlib.seed()))
             exe, models = fb.result(), fm.result()
-        fixed = models.get("fixed") or models["asis_e"]
-        models["fixed"] = fixed
+        if FAST:                     # development only: no big (E) run; numbers of a small run stand in
+            import copy
+            models["fixed"] = copy.copy(models["asis_e"])
+            models["fixed"].violated = None
+        fixed = models["fixed"]
         vlib.tlc_expect_ok(fixed, "DapWire fixed (E)")
-        if FAST:
-            fixed.violated = None
         if fixed.violated:
             raise vlib.ToolError(f"the repaired model violates {fixed.violated}: model/reference inconsistent\n"
                                  + fixed.out[-1500:])
@@ -424,10 +434,7 @@ def run(rep, tier, replay):
             s = script_from_beh(beh, puppet, f"cex-{k}", lines=(1, 1, 1, 1) if k in "ac" else (0, 0, 0, 0))
             s["origin"] = f"counterexample({k}:{inv})"
             scripts.append(s)
-        nsim, ncover = (400, 32) if tier == "quick" else (4000, 260)
-        if FAST:
-            nsim, ncover = 40, 4
-        behs, rsim = simulate_behaviours(nsim, 400, vlib.seed())
+        behs, rsim = models["G"]
         if len(behs) < nsim // 8:
             raise vlib.ToolError(f"G simulation printed only {len(behs)} finished behaviours of {nsim}")
         chosen, ncov, nall = cover_select(behs, ncover, rnd)
@@ -441,7 +448,7 @@ def run(rep, tier, replay):
 
     # ---- run the real adapter ----
     results = {}
-    with cf.ThreadPoolExecutor(max_workers=3 if DEV else 8) as ex:
+    with cf.ThreadPoolExecutor(max_workers=6 if DEV else 8) as ex:
         futs = [ex.submit(run_session, exe, s, work, puppet) for s in scripts]
         for f in futs:
             sid, status, ev = f.result()
